@@ -101,11 +101,11 @@ class SetupCfgWriter(DependencyWriter):
             new_deps = [
                 f"{formatting}{dep.requirement}{dep_sep}" for dep in dependencies_to_add
             ]
-            new_lines = (
-                original_lines[: last_dep_idx + 1]
-                + new_deps
-                + original_lines[last_dep_idx + 1 :]
-            )
+            head = original_lines[: last_dep_idx + 1]
+            if not head[-1].endswith("\n"):
+                # the last dependency is the last line of a file without a final newline
+                head[-1] += "\n"
+            new_lines = head + new_deps + original_lines[last_dep_idx + 1 :]
         else:
             # new_deps added to existing deps line
             new_dep = ",".join(
